@@ -393,4 +393,215 @@ theorem tie_withNotAllowedStmts : withNotAllowedStmts = [
   "server.router.SetNotAllowedHandler(handler)",
   "}"] := by rfl
 
+/-! ### round 4: the remaining functions of the public API -/
+
+/-- `Server.AddRoute` — model `ApiOp.addOne`: `AddRoutes([]Route{r}, opts...)`, the options are forwarded. -/
+theorem tie_serverAddRouteStmts : serverAddRouteStmts = [
+  "s.AddRoutes([]Route{r}, opts...)"] := by rfl
+
+/-- `WithJwt` — model `RouteOpt.jwt`: enabled + secret; `prevSecret` is not reset. -/
+theorem tie_withJwtStmts : withJwtStmts = [
+  "return func(r *featuredRoutes){...}",
+  "func{",
+  "validateSecret(secret)",
+  "r.jwt.enabled = true",
+  "r.jwt.secret = secret",
+  "}"] := by rfl
+
+/-- `WithJwtTransition` — model `RouteOpt.jwtTransition`. -/
+theorem tie_withJwtTransitionStmts : withJwtTransitionStmts = [
+  "return func(r *featuredRoutes){...}",
+  "func{",
+  "validateSecret(secret)",
+  "r.jwt.enabled = true",
+  "r.jwt.secret = secret",
+  "r.jwt.prevSecret = prevSecret",
+  "}"] := by rfl
+
+/-- `WithMaxBytes` — model `RouteOpt.maxBytes`: only the setting. -/
+theorem tie_withMaxBytesStmts : withMaxBytesStmts = [
+  "return func(r *featuredRoutes){...}",
+  "func{",
+  "r.maxBytes = maxBytes",
+  "}"] := by rfl
+
+/-- `WithMiddlewares` — the first middleware ends up outermost (harness trail `mw=1.2…`, monitor clause "ran behind middlewares"). -/
+theorem tie_withMiddlewaresStmts : withMiddlewaresStmts = [
+  "for i >= 0 {",
+  "rs = WithMiddleware(ms[i], rs...)",
+  "}",
+  "return rs"] := by rfl
+
+/-- `WithMiddleware` — a fresh slice, method and path copied, handler wrapped (the caller's slice is not written). -/
+theorem tie_withMiddlewareStmts : withMiddlewareStmts = [
+  "routes := make([]Route, len(rs))",
+  "range i := rs {",
+  "route := rs[i]",
+  "routes[i] = Route{ Method: route.Method, Path: route.Path, Handler: middleware(route.Handler), }",
+  "}",
+  "return routes"] := by rfl
+
+/-- `WithPriority` — model `RouteOpt.priority`. -/
+theorem tie_withPriorityStmts : withPriorityStmts = [
+  "return func(r *featuredRoutes){...}",
+  "func{",
+  "r.priority = true",
+  "}"] := by rfl
+
+/-- `WithSSE` — model `RouteOpt.sse`: sse flag, timeout reset. -/
+theorem tie_withSSEStmts : withSSEStmts = [
+  "return func(r *featuredRoutes){...}",
+  "func{",
+  "r.sse = true",
+  "r.timeout = 0",
+  "}"] := by rfl
+
+/-- `WithTimeout` — model `RouteOpt.timeout`. -/
+theorem tie_withTimeoutStmts : withTimeoutStmts = [
+  "return func(r *featuredRoutes){...}",
+  "func{",
+  "r.timeout = timeout",
+  "}"] := by rfl
+
+/-- `buildSSERoutes` — overwrites ONLY `routes[i].Handler` in place (method and path of the possibly caller-owned slice untouched: `Api.step` comment). -/
+theorem tie_buildSSERoutesStmts : buildSSERoutesStmts = [
+  "range i, route := routes {",
+  "h := route.Handler",
+  "routes[i].Handler = func(w http.ResponseWriter, r *http.Request){...}",
+  "func{",
+  "w.Header().Set(header.ContentType, header.ContentTypeEventStream)",
+  "w.Header().Set(header.CacheControl, header.CacheControlNoCache)",
+  "w.Header().Set(header.Connection, header.ConnectionKeepAlive)",
+  "h(w, r)",
+  "}",
+  "}",
+  "return routes"] := by rfl
+
+/-- `engine.appendAuthHandler` — driver `dec`/`tokenOk`: a group with jwt enabled gets `handler.Authorize(secret[, prevSecret])` in front of the route handler — the GROUP's own settings. -/
+theorem tie_engineAppendAuthStmts : engineAppendAuthStmts = [
+  "if fr.jwt.enabled {",
+  "if len(fr.jwt.prevSecret) == 0 {",
+  "chn = chn.Append(handler.Authorize(fr.jwt.secret, handler.WithUnauthorizedCallback(ng.unauthorizedCallback)))",
+  "}",
+  "else{",
+  "chn = chn.Append(handler.Authorize(fr.jwt.secret, handler.WithPrevSecret(fr.jwt.prevSecret), handler.WithUnauthorizedCallback(ng.unauthorizedCallback)))",
+  "}",
+  "}",
+  "return verifier(chn)"] := by rfl
+
+/-- `convertMiddleware` — `Server.Use` middlewares wrap `next.ServeHTTP` (not exercised). -/
+theorem tie_convertMiddlewareStmts : convertMiddlewareStmts = [
+  "return func(next http.Handler) http.Handler{...}",
+  "func{",
+  "return ware(next.ServeHTTP)",
+  "}"] := by rfl
+
+/-! ### round 4: decision conditions TRANSLATED from the Go expressions (extract/c09.go `c09Cond`) and proven equal,
+for all arguments, to the model's functions — operator, constant, negation and argument of every condition on the
+property's path are pinned semantically (the statement lists above pin order and forwarding). -/
+
+theorem slash_char : Char.ofNat slash.toNat = '/' := by decide
+theorem colon_char : Char.ofNat colon.toNat = ':' := by decide
+
+/-- `Tree.Add`, `Tree.Search`: `len(route) == 0 || route[0] != slash`; `Handle`: `len(reqPath) == 0 || reqPath[0] != '/'`
+— all three are the model's `!rooted`. -/
+theorem tie_cond_notFromRoot (s : String) :
+    condAddNotFromRoot s = !rooted s ∧ condSearchNotFromRoot s = !rooted s ∧ condHandleBadPath s = !rooted s := by
+  unfold condAddNotFromRoot condSearchNotFromRoot condHandleBadPath rooted
+  rw [slash_char, ← String.length_toList]
+  cases s.toList <;> simp
+
+/-- `getChildren`: `len(route) > 0 && route[0] == colon`; `match`: `pat[0] == colon` — the model's `isVar`. -/
+theorem tie_cond_isVar (k : String) : condGetChildrenVar k = isVar k ∧ condMatchNamed k = isVar k := by
+  unfold condGetChildrenVar condMatchNamed isVar
+  rw [colon_char, ← String.length_toList]
+  cases k.toList <;> simp
+
+/-- `match(pat, token).found` = named, or `pat == token` — the model's `matchTok`. -/
+theorem tie_cond_match (k t : String) : matchTok k t = (condMatchNamed k || condMatchLiteral k t) := by
+  rw [(tie_cond_isVar k).2]; rfl
+
+/-- `validMethod`: the disjunction of equalities with net/http's method constants is the model's `validMethod`. -/
+theorem tie_cond_validMethod (m : String) : condValidMethod m = validMethod m ∧ condHandleBadMethod (validMethod m) = !validMethod m := by
+  refine ⟨?_, rfl⟩
+  unfold condValidMethod validMethod validMethods
+  simp only [List.contains, List.elem, Bool.or_assoc]
+  cases (m == "DELETE") <;> cases (m == "GET") <;> cases (m == "HEAD") <;> cases (m == "OPTIONS") <;>
+    cases (m == "PATCH") <;> cases (m == "POST") <;> cases (m == "PUT") <;> rfl
+
+/-- the tokeniser: `route[i] != slash` (in `next` and in `add`) is the test `splitSlash` splits at. -/
+theorem tie_cond_split (c : Char) (cs cur : List Char) :
+    condNextNotSlash c = condAddNotSlash c ∧
+    splitSlash (c :: cs) cur =
+      if condNextNotSlash c then splitSlash cs (c :: cur) else String.ofList cur.reverse :: splitSlash cs [] := by
+  unfold condNextNotSlash condAddNotSlash
+  rw [slash_char]
+  refine ⟨rfl, ?_⟩
+  show (if c = '/' then _ else _) = _
+  by_cases h : c = '/' <;> simp [h]
+
+/-- `Tree.next`, first test: `len(route) == 0 && n.item != nil` — the model's `t = "" ∧ n.item.isSome` on the last token. -/
+theorem tie_cond_nextHere (t : String) (n : Node) :
+    condNextHere t n.item.isSome = decide (t = "" ∧ n.item.isSome) := by
+  unfold condNextHere
+  have : (t.length == 0) = decide (t = "") := by
+    rw [← String.length_toList]
+    by_cases h : t = ""
+    · subst h; rfl
+    · have : t.toList ≠ [] := fun e => h (by rw [← String.ofList_toList (s := t), e])
+      cases hl : t.toList with
+      | nil => exact absurd hl this
+      | cons c cs => simp [h]
+  rw [this]
+  by_cases h : t = "" <;> simp [h]
+
+/-- `Tree.next`, inner segment: the child is skipped iff `!r.found || !t.next(v, rest)` — the model's callback
+succeeds iff the token matches AND the search of the rest below the child succeeds. -/
+theorem tie_cond_nextSkip (k t : String) (rest : List String) (c : Node) :
+    (if matchTok k t then (next rest c).map (hit k t) else none).isNone =
+      condNextSkip (matchTok k t) (next rest c).isSome := by
+  unfold condNextSkip
+  cases matchTok k t <;> cases next rest c <;> rfl
+
+/-- `Tree.next`, last segment: the child is taken iff `r.found && v.item != nil`. -/
+theorem tie_cond_nextLast (k t : String) (c : Node) :
+    (if matchTok k t then c.item.map (fun h => hit k t (h, [])) else none).isSome =
+      condNextLast (matchTok k t) c.item.isSome := by
+  unfold condNextLast
+  cases matchTok k t <;> cases c.item <;> rfl
+
+/-- `addParam` only under `r.named`: the model's `hit` adds the parameter iff the pattern is a variable. -/
+theorem tie_cond_named (k t : String) (r : H × Params) :
+    hit k t r = if condNextNamed (condMatchNamed k) then (r.1, r.2 ++ [(varName k, t)]) else r := by
+  unfold condNextNamed; rw [(tie_cond_isVar k).2]; rfl
+
+/-- `add`: `len(route) == 0` / `nd.item != nil` / `route[0] == slash` / `child.item != nil`, and `Tree.Add`'s `item == nil`:
+the model's end-of-route, duplicate, double-slash (an empty next element = the rest starts with '/') and nil-item tests. -/
+theorem tie_cond_add (s : String) (i : Option H) :
+    condAddEnd s = decide (s.toList = []) ∧ condAddDupSlash s = (s.toList.head? == some '/') ∧
+    condAddDupHere i.isSome = i.isSome ∧ condAddDupChild i.isSome = i.isSome ∧ condAddEmptyItem i.isSome = i.isNone := by
+  unfold condAddEnd condAddDupSlash condAddDupHere condAddDupChild condAddEmptyItem
+  rw [slash_char, ← String.length_toList]
+  refine ⟨?_, rfl, rfl, rfl, by cases i <;> rfl⟩
+  cases s.toList <;> simp
+
+/-- `ServeHTTP` / `handleNotFound` / `methodsAllowed`: vars installed iff some were bound; 404 iff no other method
+matches (`!ok`, `len(allows) > 0`); the custom handlers run iff set; the own method is skipped. -/
+theorem tie_cond_serve (ps : Params) (allows : List String) (na : Option H) (nf : Option NFHandler) (a b : String) :
+    condServeHasParams ps.length = !ps.isEmpty ∧ condAllowedAny allows.length = !allows.isEmpty ∧
+    condServeNotFound (condAllowedAny allows.length) = allows.isEmpty ∧
+    condServeCustomNA na.isSome = na.isSome ∧ condCustomNF nf.isSome = nf.isSome ∧
+    condAllowedSkipOwn a b = (a == b) ∧ condEngineNFCustom na.isSome = na.isSome := by
+  unfold condServeHasParams condAllowedAny condServeNotFound condServeCustomNA condCustomNF condAllowedSkipOwn
+    condEngineNFCustom
+  refine ⟨by cases ps <;> simp, by cases allows <;> simp, by cases allows <;> simp, rfl, rfl, rfl, rfl⟩
+
+/-- the model's `serve` decides with exactly these conditions: 404 iff `methodsAllowed` is empty. -/
+theorem tie_cond_serve_model (r : Router) (m p : String) (h : (r.trees.lookup m).bind (searchClean · p) = none) :
+    (serve r m p = .notFound) = (condServeNotFound (condAllowedAny (methodsAllowed r m p).length) = true) := by
+  unfold serve
+  rw [h]
+  rw [(tie_cond_serve [] (methodsAllowed r m p) none none "" "").2.2.1]
+  cases methodsAllowed r m p <;> simp
+
 end GoZero.C09.Tie
